@@ -126,6 +126,7 @@ def _validate_fixed_indices(
         return
     extra = set(fixed_indices)
     axes = pipeline.mapspec_axes
+    inputs = pipeline.defaults | inputs  # a mapped array might be provided as a default only
     for parameter, axes_ in axes.items():
         for axis in axes_:
             if axis in fixed_indices:
